@@ -581,7 +581,7 @@ def run(ctx, res):
     run_tree_jobs(ctx, res, list(exhaustive_tree_jobs(ctx, res, max_nodes)))
     run_tree_jobs(ctx, res, list(random_tree_jobs(ctx, res, ctx.budget(150, 2000))))
     array_stream(ctx, res)
-    res.exhaustive = True
+    res.exhaustive = False  # bounded-exhaustive scopes are listed in the notes; the property (all trees, all arrays) is not enumerable
     res.notes.append(
         f"bounded-exhaustive: all ordered tree shapes <= {max_nodes} nodes x all singles/pairs/triples; "
         f"all arrays over {{0,1,2}} of length <= {ctx.budget(6, 9)} x all ranges"
